@@ -401,6 +401,10 @@ def run(c):
     mo = run_oracle(["c20 pay " + w(mw) for _, mw in pay_cases])
     for (p, mw), gline, mline in zip(pay_cases, go, mo):
         c.count("payment", 1, gline)
+        if any(l.get("currency") and l.get("document", {}).get("currency") == l["currency"] != p["currency"] for l in p["lines"]):
+            c.count("payment-line-in-document-currency", 1, gline)
+        if len({l["document"].get("currency", p["currency"]) for l in p["lines"] if l.get("document", {}).get("tax")}) > 1:
+            c.count("payment-documents-in-several-currencies", 1, gline)
         gv, mv = parse_wire(gline), parse_wire(mline)
         bad = None
         if not is_err(gv):
@@ -420,7 +424,8 @@ def run(c):
                      "(1-3 categories, retained or not, keyed/percent/exempt groups, surcharges, extensions, countries) as loaded and - with finer bases - as recalculated "
                      "(unexported precise figures), at one precision and at the precisions of different currencies (0, 2, 3 decimals: counted as merge-different-precisions), "
                      "negated, merged pairwise in both orders, in sequences of 3-5 and with their own "
-                     "negation; payments with 1-8 debit/credit lines in 1-3 currencies with exchange rates and document tax summaries; distinct = distinct implementation results")
+                     "negation; payments with 1-8 debit/credit lines in 1-4 currencies with exchange rates and document tax summaries, the documents with no currency, "
+                     "the payment's or another one (0, 2, 3 decimals), the line currency absent, equal to or different from its document's and the payment's; distinct = distinct implementation results")
     c.cov["go_model_differences"] = mism
     if not proved:
         pr = c.proof
@@ -433,8 +438,8 @@ def gen_payments(c, rng, n):
     for _ in range(n):
         cur = rng.choice(["EUR", "EUR", "JPY", "KWD"])
         cdec = cg.SUBUNITS[cur]
-        others = [x for x in ("USD", "GBP") if x != cur]
-        rates = [{"from": o, "to": cur, "amount": rng.choice(["0.875967", "149.31", "0.31", "1.1", "0.5", "1.25", "0.305"])} for o in others]
+        others = [x for x in ("USD", "GBP", "JPY") if x != cur]
+        rates = [{"from": o, "to": cur, "amount": rng.choice(["0.875967", "149.31", "0.31", "1.1", "0.5", "1.25", "0.305", "0.96", "0.0061"])} for o in others]
         lines = []
         for _ in range(rng.randint(1, 8)):
             l = {}
@@ -447,9 +452,25 @@ def gen_payments(c, rng, n):
                 l["currency"] = rng.choice(others)
             if rng.random() < 0.6:
                 doc = {"uuid": "3aea7b56-59d8-4beb-90bd-f8f280d852a0", "issue_date": "2025-01-10", "code": "001"}
+                # the settled document's own currency: absent (= the payment's), the payment's stated explicitly, or another one
+                # (its summary is recalculated at THAT currency's decimals, so one payment merges summaries of different precision)
+                k = rng.random()
+                if k < 0.25:
+                    doc["currency"] = cur
+                elif k < 0.6:
+                    doc["currency"] = rng.choice(others + ["KWD", "EUR"])
                 if rng.random() < 0.8:
-                    doc["tax"] = gen_tt(rng, c=cdec)
+                    doc["tax"] = gen_tt(rng, c=cg.SUBUNITS[doc.get("currency", cur)])
                 l["document"] = doc
+                # the amount of a line is in the line's currency when given (whatever the document's is), else in the
+                # payment's: every combination of line currency = / <> document currency = / <> payment currency
+                dc = doc.get("currency")
+                if dc and (dc == cur or dc in others):
+                    k = rng.random()
+                    if k < 0.5:
+                        l["currency"] = dc
+                    elif k < 0.65:
+                        l.pop("currency", None)
             lines.append(l)
         p = {"$schema": "https://gobl.org/draft-0/bill/payment", "uuid": "0194ad4c-3462-7695-a40c-66a30ccc1405", "type": "receipt",
              "method": {"key": "credit-transfer"}, "code": "0001", "issue_date": "2025-01-28", "currency": cur,
@@ -458,7 +479,7 @@ def gen_payments(c, rng, n):
         for l in lines:
             d = l.get("document")
             mlines.append([[cg.CURID[l["currency"]]] if l.get("currency") else [], cg.oa(l.get("debit")), cg.oa(l.get("credit")),
-                           [] if d is None else [[], tt_wire(d["tax"]) if d.get("tax") else []]])
+                           [] if d is None else [[cg.CURID[d["currency"]]] if d.get("currency") else [], tt_wire(d["tax"]) if d.get("tax") else []]])
         mw = [1, 0, cg.CURID[cur], cdec, [[cg.CURID[k], cg.SUBUNITS[k]] for k in cg.SUBUNITS],
               [[cg.CURID[r["from"]], cg.CURID[r["to"]], cg.parse(r["amount"]).t()] for r in rates], mlines]
         out.append((p, mw))
@@ -471,7 +492,7 @@ def judge_payment(p, gv):
     cdec = cg.SUBUNITS[cur]
     rates = {r["from"]: cg.parse(r["amount"]).q() for r in p["exchange_rates"]}
     total = Z
-    for l, lt in zip(p["lines"], gv[1]):
+    for i, (l, lt) in enumerate(zip(p["lines"], gv[1])):
         v = Z
         for k, s in (("debit", 1), ("credit", -1)):
             if k in l:
@@ -487,7 +508,9 @@ def judge_payment(p, gv):
                         a = Fraction(cg.rha(x.numerator, x.denominator), 10 ** cdec)
                 v += s * a
         if q(lt) != v:
-            return "line total %s is not debit - credit = %s" % (q(lt), v)
+            return ("line %d (line currency %s, document currency %s, payment currency %s): total %s is not debit - credit converted "
+                    "to the payment currency with the declared rate = %s"
+                    % (i, l.get("currency", "-"), (l.get("document") or {}).get("currency", "-"), cur, q(lt), v))
         total += v
     if q(gv[2]) != total:
         return "total %s is not the sum of the lines' debit - credit = %s" % (q(gv[2]), total)
